@@ -18,6 +18,7 @@ in-memory overlays. Expected: every check exits 0 and prints exactly the KNOWN-F
  M13 if-invert : `if c: A else: B` -> `if not c: B else: A`
  M14 else      : explicit `else:` after a branch that returns/raises
  M15 compreh.  : append loops become list comprehensions
+ M16 join      : `x = <bytes>; x += a; x += b` chains become one b"".join([...])
 """
 from __future__ import annotations
 
@@ -319,6 +320,49 @@ class M15(ast.NodeTransformer):
         return node
 
 
+def _bytes_init(e: ast.expr) -> bool:
+    if isinstance(e, ast.Constant) and isinstance(e.value, bytes):
+        return True
+    if isinstance(e, ast.Call):
+        f = ast.unparse(e.func)
+        return f in ("bytes", "pack", "struct.pack") and (f != "bytes" or not e.args) or f.endswith(".export") or f.endswith(".to_bytes")
+    return False
+
+
+class M16(ast.NodeTransformer):
+    """bytes assembly: `x = <bytes>` followed by consecutive `x += e` statements  ->  `x = b"".join([<bytes>, e, ...])`."""
+
+    def _conv(self, body):
+        out = []
+        i = 0
+        while i < len(body):
+            st = body[i]
+            if isinstance(st, ast.Assign) and len(st.targets) == 1 and isinstance(st.targets[0], ast.Name) and _bytes_init(st.value):
+                v = st.targets[0].id
+                parts = [] if (isinstance(st.value, ast.Call) and ast.unparse(st.value) == "bytes()") or (isinstance(st.value, ast.Constant) and st.value.value == b"") else [st.value]
+                j = i + 1
+                while j < len(body) and isinstance(body[j], ast.AugAssign) and isinstance(body[j].op, ast.Add) and isinstance(body[j].target, ast.Name) and body[j].target.id == v \
+                        and not any(isinstance(n, ast.Name) and n.id == v for n in ast.walk(body[j].value)):
+                    parts.append(body[j].value)
+                    j += 1
+                if j - i >= 3 and len(parts) >= 2:
+                    call = ast.Call(func=ast.Attribute(value=ast.Constant(value=b""), attr="join", ctx=ast.Load()), args=[ast.List(elts=parts, ctx=ast.Load())], keywords=[])
+                    out.append(ast.copy_location(ast.Assign(targets=st.targets, value=call), st))
+                    i = j
+                    continue
+            out.append(st)
+            i += 1
+        return out
+
+    def generic_visit(self, node):
+        super().generic_visit(node)
+        for fld in ("body", "orelse", "finalbody"):
+            b = getattr(node, fld, None)
+            if isinstance(b, list) and b and isinstance(b[0], ast.stmt):
+                setattr(node, fld, self._conv(b))
+        return node
+
+
 MUTATORS: Dict[str, Callable[[ast.Module], ast.Module]] = {
     "M1-reformat": lambda t: t,
     "M2-logging": lambda t: M2().visit(t),
@@ -335,6 +379,7 @@ MUTATORS: Dict[str, Callable[[ast.Module], ast.Module]] = {
     "M13-if-invert": lambda t: M13().visit(t),
     "M14-explicit-else": lambda t: M14().visit(t),
     "M15-comprehension": lambda t: M15().visit(t),
+    "M16-join-assembly": lambda t: M16().visit(t),
 }
 
 
